@@ -164,7 +164,7 @@ func diffDigest(a, b map[string]string) string {
 	return strings.Join(d, " ")
 }
 
-var c08Probes = [][2]string{{"GET", "/p1"}, {"GET", "/p2"}, {"GET", "/p3"}, {"GET", "/p4"}, {"POST", "/p1"}, {"GET", "/zz"}}
+var c08Probes = [][2]string{{"GET", "/p1"}, {"GET", "/p2"}, {"GET", "/p3"}, {"GET", "/p4"}, {"POST", "/p1"}, {"GET", "/zz"}, {"GET", "/p5"}}
 
 func verdictOf(acts []actions.ReqLunarAction, err error) string {
 	if err != nil {
@@ -548,10 +548,26 @@ func runC08(s *kernel.Sim, enumerate bool) {
 	}
 	var seen []during
 	nProbe := 0
+	// a second, unrelated update (it adds one flow on /p5) sent while the first one
+	// is still being handled: it is either refused at once and leaves no trace, or
+	// it is answered 200 and then has to be in force
+	secondUpdate := concurrent && !enumerate && tp.Chance(1, 3)
+	s.Knobs["second_update_during_the_first"] = secondUpdate
+	var rec2 *httptest.ResponseRecorder
+	var upd2 *kernel.Task
+	body2, _ := json.Marshal(map[string]any{"flows": map[string]string{"fb.yaml": base64.StdEncoding.EncodeToString([]byte(probeFlow("fb", "a.com/p5", 415)))}})
 	for st := 0; st < 6000; st++ {
 		p := s.ParkedTasks()
+		if secondUpdate && upd2 == nil && upd.Parked() && upd.Point != "task.start" && tp.Chance(1, 6) {
+			upd2 = s.Spawn("update2", func() {
+				rec2 = httptest.NewRecorder()
+				env.mux.ServeHTTP(rec2, httptest.NewRequest(http.MethodPut, "/configuration", bytes.NewReader(body2)))
+			})
+			s.FaultFired("second_update_during_the_first")
+			continue
+		}
 		if len(p) == 0 {
-			if upd.Done() {
+			if upd.Done() && (upd2 == nil || upd2.Done()) {
 				break
 			}
 			s.Sleep(250 * time.Millisecond) // the update waits on fake time (health-check retries)
@@ -598,8 +614,31 @@ func runC08(s *kernel.Sim, enumerate bool) {
 		return
 	}
 	code := rec.Code
+	if upd2 != nil && upd2.Done() && rec2 != nil {
+		// R5: the overlapping second update
+		s.Rule("R5")
+		onDisk := false
+		if _, err := os.Stat(filepath.Join(env.dir, "flows", "fb.yaml")); err == nil {
+			onDisk = true
+		}
+		serves := env.probe(6, "after-second") == "415"
+		s.Event("second-update", fmt.Sprint(rec2.Code), fmt.Sprintf("on_disk=%v serves=%v", onDisk, serves))
+		switch {
+		case rec2.Code == 200 && !(onDisk && serves) && !(len(fired) > 0):
+			s.Violate("R5", "accepted-update-not-in-force", "a second update sent during %s was answered 200, but afterwards its flow file on disk=%v and its flow serves=%v (the first update was answered %d)", endpoint, onDisk, serves, code)
+		case rec2.Code != 200 && (onDisk || serves):
+			s.Violate("R5", "refused-update-left-traces", "a second update sent during %s was answered %d, but afterwards its flow file on disk=%v and its flow serves=%v", endpoint, rec2.Code, onDisk, serves)
+		}
+	}
 	after := dirDigest(env.dir)
 	vAfter := env.probeAll("after")
+	if rec2 != nil && rec2.Code == 200 {
+		// the second update went through (it may have started when the first one had
+		// already given up the handler): its own effects are judged by R5 above and
+		// are not held against the first update
+		delete(after, "flows/fb.yaml")
+		vAfter[6] = vOld[6]
+	}
 	s.Event("after", fmt.Sprint(code), strings.Join(vAfter, ","), diffDigest(before, after))
 	anyFired := len(fired) > 0
 	if anyFired || !valid {
@@ -643,6 +682,9 @@ func runC08(s *kernel.Sim, enumerate bool) {
 		}
 		vNew, ferr := freshVerdicts(env.dir)
 		c08setEnv(env.dir)
+		if ferr == nil && rec2 != nil && rec2.Code == 200 {
+			vNew[6] = vAfter[6] // the accepted second update is judged by R5
+		}
 		if ferr != nil {
 			s.Violate("R3", "success-but-directory-does-not-load:"+endpoint, "%s answered 200 (%s) but a fresh engine cannot load the resulting directory: %v", endpoint, faultDesc, ferr)
 		} else if strings.Join(vNew, ",") != strings.Join(vAfter, ",") {
